@@ -56,6 +56,7 @@ type fwdCfg struct {
 	MITMCacheTTL      time.Duration `json:"-"`
 	ShutdownTimeout   time.Duration `json:"-"`
 	InsecureUpstream  bool          `json:"-"`
+	connectFunc       forwarder.ConnectFunc
 }
 
 type dialRec struct {
@@ -76,6 +77,7 @@ type fwd struct {
 	names map[string]string // logical host:port -> real address
 	dials []dialRec
 	faults map[string]string // logical host:port -> "refuse" | "timeout"
+	nameFallback *nameTable  // consulted when names has no entry
 }
 
 func (f *fwd) mapName(logical, real string) {
@@ -114,6 +116,9 @@ func (f *fwd) dial(ctx context.Context, network, address string) (net.Conn, erro
 		return nil, &net.OpError{Op: "dial", Net: network, Err: syscall.ECONNREFUSED}
 	case "timeout":
 		return nil, &net.OpError{Op: "dial", Net: network, Err: timeoutErr{}}
+	}
+	if !ok && f.nameFallback != nil {
+		real, ok = f.nameFallback.get(key)
 	}
 	if !ok {
 		return nil, &net.OpError{Op: "dial", Net: network, Err: syscall.ECONNREFUSED}
@@ -228,6 +233,7 @@ func startFwd(c fwdCfg) (*fwd, error) {
 	cfg.ReadLimit = forwarder.SizeSuffix(c.ReadLimit)
 	cfg.WriteLimit = forwarder.SizeSuffix(c.WriteLimit)
 	cfg.TestingHTTPHandler = c.Handler
+	cfg.ConnectFunc = c.connectFunc
 	if c.ShutdownTimeout > 0 {
 		forwarder.VerifShutdownTimeout(cfg, c.ShutdownTimeout)
 	} else {
